@@ -53,6 +53,7 @@ structure Sim where
   sp : St := {}
   staleD : List Nat := []
   staleS : List Nat := []
+  dialFailed : Bool := false
   deriving Repr
 
 namespace Sim
@@ -193,16 +194,16 @@ inductive Fate | fine | failed | untouched
 /-- returns the new pool state and whether the wire that was used turned out stale
     (closed by the server while idle: it looks healthy until it is used) -/
 def callOn (c : Cfg) (s : St) (stale : List Nat) (ctxDone : Bool) (fate : Fate) (dialFails : Bool := false) :
-    Option (St × Bool) :=
+    Option (St × Bool × Bool) :=
   if ctxDone then do
     let s1 ← step c s .acqCtxDead
     let s2 ← step c s1 .storeCtx
-    pure (s2, false)
+    pure (s2, false, false)
   else if s.down then do
     -- Acquire hands out the shared dead wire, the caller stores it
     let s1 ← step c s .acqDown
     let s2 ← step c s1 .storeDeadU
-    pure (s2, false)
+    pure (s2, false, false)
   else do
     let (s1, w?) ← acquireNow 64 c s dialFails
     match w? with
@@ -210,15 +211,15 @@ def callOn (c : Cfg) (s : St) (stale : List Nat) (ctxDone : Bool) (fate : Fate) 
       -- failed dial: the counted shared dead wire was handed out; every caller stores it
       -- (mux.blocking / release directly, the stream callers through pipe.DoStream on the dead pipe)
       let s2 ← step c s1 .storeDead
-      pure (s2, true)
+      pure (s2, true, true)
     | some w =>
     let isStale := stale.contains w
     if fate == .untouched then
       let s2 ← run c s1 (streamEarlyReturn w)
-      pure (s2, false)
+      pure (s2, false, false)
     else
       let s2 ← run c s1 (useAndStore w (isStale || fate == .failed))
-      pure (s2, isStale)
+      pure (s2, isStale, false)
 
 def poolShow (s : St) : String :=
   s!"{s.size}/{s.list.length}/{if s.down then 1 else 0}"
@@ -269,9 +270,13 @@ def callers (s : Sim) (ws : List String) : Option (Sim × String) :=
     let stale := if onD then s.staleD else s.staleS
     match callOn s.cfg pool stale ctxDone fate dialFails with
     | none => some (callersAnswer { s with stuck := true } rOk)
-    | some (p', wasStale) =>
+    | some (p', wasStale, dialFailed) =>
       let s1 := if onD then { s with dp := p' } else { s with sp := p' }
-      let res := if ctxDone then rOk else if pool.down then rClosed else if wasStale then rStale else rOk
+      let s1 := { s1 with dialFailed := s1.dialFailed || dialFailed }
+      -- makeMux's wireFn stores the dial error into the mux's shared dead wire, so once a dial
+      -- has failed that error (not ErrClosing) is what a closed client reports
+      let res := if ctxDone then rOk else if pool.down then (if s.dialFailed then rStale else rClosed)
+                 else if wasStale then rStale else rOk
       some (callersAnswer s1 res)
 
 def step' (s : Sim) (ws : List String) : Sim × String :=
